@@ -180,7 +180,7 @@ func planE1(prop, tier string) *e1Plan {
 	thorough := tier == "thorough"
 	K, K12 := cfg24(), pairwiseCfgs()
 	if thorough {
-		K, K12 = allCfgs(), allCfgs()
+		K, K12 = allCfgs(), cfg24()
 	}
 	// configuration subsets
 	K6 := []Cfg{ // the four destinations and all three formatters, booleans rotated
@@ -190,7 +190,10 @@ func planE1(prop, tier string) *e1Plan {
 	K2 := []Cfg{{Pkg: 0, Stub: true}, {Pkg: 2, Resets: true, Custom: true}}
 	KN := cfgNames()
 	if thorough {
-		K6, K2, KN = allCfgs(), cfg24(), cfg24()
+		// thorough: S-cfg, S-embed, S-srcsync under all 192 configurations; the large scopes under the
+		// 24+ point set (every skip-ensure x destination x formatter triple, all pairs)
+		K2 = K6
+		K6, KN = cfg24(), K6
 	}
 	typeScope := func(depth int) (pr, v []*SrcPkg) { return scopeType(depth, "PR"), scopeType(depth, "V") }
 	switch prop {
@@ -207,10 +210,11 @@ func planE1(prop, tier string) *e1Plan {
 		p.add(scopeName2("rest"), KN)
 		if thorough {
 			pr, v = typeScope(2)
-			p.add(pr, cfg24())
-			p.add(v, cfg24())
+			p.add(pr, K2)
+			p.add(v, K2[:2])
 			p.add(scopeName3(), cfgNames())
-			p.add(scopeImp(3, true), K2)
+			p.add(scopeImp(3, false), K2[:1])
+			p.add(scopeImp(2, true), K2)
 		} else {
 			p.add(scopeImp(2, true), K2)
 		}
@@ -225,8 +229,8 @@ func planE1(prop, tier string) *e1Plan {
 		p.add(scopeGen(), K12)
 		if thorough {
 			pr, v = typeScope(2)
-			p.add(pr, cfg24())
-			p.add(v, cfg24())
+			p.add(pr, K2)
+			p.add(v, K2[:2])
 		}
 		lp := scopeListPkg()
 		p.pkgs = append(p.pkgs, lp)
@@ -272,7 +276,8 @@ func planE1(prop, tier string) *e1Plan {
 		p.add(scopeSrcSync(), K)
 		p.add(scopeEmbed(), KN)
 		if thorough {
-			p.add(scopeImp(3, true), K2)
+			p.add(scopeImp(3, false), K2[:1])
+			p.add(scopeImp(2, true), K2)
 		} else {
 			p.add(scopeImp(2, true), K2)
 		}
@@ -309,7 +314,8 @@ func planE1(prop, tier string) *e1Plan {
 		p.add(scopeEmbed(), K2)
 		p.add(scopeName2("rest"), K2[:1])
 		if thorough {
-			p.add(scopeImp(3, true), K2[:1])
+			p.add(scopeImp(3, false), K2[:1])
+			p.add(scopeImp(2, true), K2[:1])
 		} else {
 			p.add(scopeImp(2, true), K2)
 		}
